@@ -935,7 +935,7 @@ fn impl_info<'tcx>(cx: &mut Cx<'tcx>, did: DefId) -> J {
                     Some(t) => s(t),
                     None => J::Null,
                 }),
-                ("derived", J::Bool(tcx.is_automatically_derived(parent))),
+                ("derived", J::Bool(really_derived(tcx, parent))),
             ])
         }
         DefKind::Trait => obj(vec![("kind", s("trait")), ("trait", s(cx.path(parent)))]),
@@ -1055,7 +1055,7 @@ fn dump(tcx: TyCtxt<'_>) {
                         None => J::Null,
                     }),
                     ("trait_args", J::Arr(trait_args)),
-                    ("derived", J::Bool(tcx.is_automatically_derived(did))),
+                    ("derived", J::Bool(really_derived(tcx, did))),
                     ("items", J::Obj(items)),
                     ("span", cx.loc(tcx.def_span(did))),
                 ]));
@@ -1105,7 +1105,7 @@ fn dump(tcx: TyCtxt<'_>) {
             ("rustc", s(rustc_interface::util::rustc_version_str().unwrap_or("?"))),
             ("flags", J::Arr(flags)),
             ("overflow_checks", J::Bool(tcx.sess.overflow_checks())),
-            ("stamp", s(std::env::var("CKC_FACTS_STAMP").unwrap_or_default())),
+            ("stamp", s(FACTS_STAMP.get().cloned().unwrap_or_default())),
         ])),
         ("types", J::Arr(cx.types.clone())),
         ("adts", J::Obj(cx.adts.iter().map(|(k, v)| (k.clone(), v.clone())).collect())),
@@ -1117,9 +1117,22 @@ fn dump(tcx: TyCtxt<'_>) {
     ]);
     let mut out = String::with_capacity(1 << 24);
     doc.write(&mut out);
-    let path = std::env::var("CKC_FACTS_OUT").expect("CKC_FACTS_OUT not set");
+    let path = FACTS_OUT.get().cloned().flatten().expect("CKC_FACTS_OUT not set");
     std::fs::write(&path, out).expect("cannot write facts");
 }
+
+/// An impl counts as derived only when it was produced by a `#[derive]` expansion: the attribute
+/// `#[automatically_derived]` alone can be written by hand on any impl.
+fn really_derived(tcx: TyCtxt<'_>, did: DefId) -> bool {
+    if !tcx.is_automatically_derived(did) {
+        return false;
+    }
+    let sp = tcx.def_span(did);
+    matches!(sp.ctxt().outer_expn_data().kind, rustc_span::ExpnKind::Macro(rustc_span::MacroKind::Derive, _))
+}
+
+static FACTS_OUT: std::sync::OnceLock<Option<String>> = std::sync::OnceLock::new();
+static FACTS_STAMP: std::sync::OnceLock<String> = std::sync::OnceLock::new();
 
 struct Cb;
 
@@ -1133,6 +1146,16 @@ impl rustc_driver::Callbacks for Cb {
 }
 
 fn main() {
+    // The extractor's own environment must not be observable from the crate under analysis
+    // (`option_env!` reads the compiler's environment): read it, then remove it.
+    let _ = FACTS_OUT.set(std::env::var("CKC_FACTS_OUT").ok());
+    let _ = FACTS_STAMP.set(std::env::var("CKC_FACTS_STAMP").unwrap_or_default());
+    for (k, _) in std::env::vars_os() {
+        let ks = k.to_string_lossy().to_string();
+        if ks.starts_with("CKC_") || ks == "RUSTC_WORKSPACE_WRAPPER" || ks == "VERIF_REPO" || ks == "VERIF_WALL_BUDGET" {
+            unsafe { std::env::remove_var(&k) };
+        }
+    }
     let mut args: Vec<String> = std::env::args().collect();
     // RUSTC_WORKSPACE_WRAPPER: argv[1] is the real rustc
     if args.len() > 1 && (args[1].ends_with("rustc") || args[1].contains("/rustc")) {
